@@ -18,7 +18,7 @@ ASSUMPTIONS = ["scope is the property's own: single-action final strategies on t
                "checked exactly; out-of-scope solves are skipped and counted",
                "band delta*T_max(s) + eps on both diagnostics"]
 TIMEOUT = 1800
-TABLE = [("G-ACYW", 700), ("G-CYCW", 700), ("G-LEX", 400), ("G-DEAD", 400), ("G-P2MIN", 500), ("G-SLOW", 80), ("G-TINYB", 300), ("G-AUXFAST", 40)]
+TABLE = [("G-ACYW", 700), ("G-CYCW", 700), ("G-LEX", 400), ("G-DEAD", 400), ("G-P2MIN", 500), ("G-SLOW", 80), ("G-TINYB", 300), ("G-AUXFAST", 40), ("G-P2NEST", 400)]
 
 
 def plan(tier, seed):
@@ -68,6 +68,41 @@ def gen_p2min(rng):
             tl[s] = tl[s] + [([l for l in games.LABELS if l not in used][0], c)]
     out = {"rewards": rewards, "players": players, "transition_list": tl, "final_states": list(gd["final_states"])}
     return games.renumber_random(rng, out)
+
+
+def gen_p2nest(rng):
+    """A chooser (Player 1 or Player 2) over k reach-tied branches, each leading to a Player-2 state N_i whose reachability-minimal
+    action ('r': low reach, expensive) differs from its reward-minimal action ('c': sure, cheap).  The two diagnostics then rank the
+    branches differently from the main rewards: every way of mixing up the three quantities shows."""
+    from fractions import Fraction as F
+    k = rng.randint(2, 4)
+    q = rng.choice([F(1, 2), F(1, 4), F(3, 4), F(9, 10)])
+    costs = rng.sample(range(3, 200), 2 * k)
+    players, tl, rewards = [], [], []
+
+    def add(owner, tr, rew=0):
+        players.append(owner); tl.append(tr); rewards.append(F(rew))
+        return len(players) - 1
+
+    init = add(PR, None)
+    f = add(PR, None); tl[f] = [(F(1), f)]
+    z = add(PR, None); tl[z] = [(F(1), z)]
+    tops = []
+    for i in range(k):
+        e, c = sorted(costs[2 * i:2 * i + 2], reverse=True)
+        E = add(PR, [(q, f), (1 - q, z)] if rng.random() < 0.5 else [(1 - q, z), (q, f)], e)
+        C = add(PR, [(F(1), f)], c)
+        acts = [("r", E), ("c", C)]
+        rng.shuffle(acts)
+        tops.append(add(P2, acts, rng.randint(0, 2)))
+    owner = rng.choice([P1, P2])
+    opts = list(zip(games.LABELS, tops))
+    rng.shuffle(opts)
+    top = add(owner, opts, rng.randint(0, 5))
+    tl[init] = [(F(1), top)] if rng.random() < 0.5 else [(F(1, 2), top), (F(1, 2), f)]
+    rewards[init] = F(rng.randint(0, 5))
+    gd = {"rewards": rewards, "players": players, "transition_list": tl, "final_states": [f]}
+    return games.renumber_random(rng, gd)
 
 
 def decide(gd, idx, cls):
@@ -128,6 +163,8 @@ def _gen(batch, idx):
         return games.gen_cyc(rng, nmax=12, rmax=97)
     if c == "G-P2MIN":
         return gen_p2min(rng)
+    if c == "G-P2NEST":
+        return gen_p2nest(rng)
     return games.gen_class(rng, c)
 
 
